@@ -831,7 +831,9 @@ func c15WSMany(w *W) {
 		d := &websocket.Dialer{Subprotocols: []string{info.SelfName + ".sp.nanomsg.org"}, HandshakeTimeout: 30 * time.Second, TLSClientConfig: cliTLS}
 		if !w.Real {
 			d.HandshakeTimeout = 0
-			d.NetDialContext = func(ctx context.Context, network, addr string) (net.Conn, error) { return curNet.Dial(NetKey("tcp://" + addr)) }
+			d.NetDialContext = func(ctx context.Context, network, addr string) (net.Conn, error) {
+				return curNet.Dial(NetKey("tcp://" + addr))
+			}
 		}
 		c, _, err := d.Dial(url, nil)
 		if err != nil {
